@@ -437,6 +437,9 @@ func runConfOnlyIf(c *Ctx, r *RuleRun) {
 								okAll = okAll && o2
 								any = any || a2
 								unknown = unknown || u2
+							} else if hitFact(Cmp{Op: "true", X: e}) {
+								// `_, conflict = writesFp[fp]`: the result is the hit itself
+								any = true
 							} else {
 								unknown = true
 							}
@@ -968,12 +971,35 @@ func runSkipRandLevel(c *Ctx, r *RuleRun) {
 		return
 	}
 	n := 0
-	for _, g := range p.DirectCallees(set) {
-		if g.Pkg != pk || g.Signature.Results().Len() != 1 || g.Signature.Params().Len() != 0 {
-			continue
+	// the drawing loop: in a helper of Set that returns the level, or written out in Set itself (then recognised by the
+	// random draw in its condition)
+	drawsRandom := func(ph *ssa.Phi) bool {
+		hdr := ph.Block()
+		found := false
+		for _, lp := range naturalLoops(ph.Parent()) {
+			if lp.header != hdr {
+				continue
+			}
+			for b := range lp.body {
+				for _, i2 := range b.Instrs {
+					if cl, ok := i2.(*ssa.Call); ok {
+						if obj := p.CalleeObj(cl); obj != nil && obj.Pkg() != nil && strings.HasPrefix(obj.Pkg().Path(), "math/rand") {
+							found = true
+						}
+					}
+				}
+			}
 		}
-		if bt, ok := g.Signature.Results().At(0).Type().Underlying().(*types.Basic); !ok || bt.Kind() != types.Int {
-			continue
+		return found
+	}
+	for _, g := range append([]*ssa.Function{set}, p.DirectCallees(set)...) {
+		if g != set {
+			if g.Pkg != pk || g.Signature.Results().Len() != 1 || g.Signature.Params().Len() != 0 {
+				continue
+			}
+			if bt, ok := g.Signature.Results().At(0).Type().Underlying().(*types.Basic); !ok || bt.Kind() != types.Int {
+				continue
+			}
 		}
 		fn := p.FnName(g)
 		eachInstr(g, func(ins ssa.Instruction) {
@@ -996,6 +1022,9 @@ func runSkipRandLevel(c *Ctx, r *RuleRun) {
 					returned = true
 				}
 			})
+			if g == set {
+				returned = drawsRandom(ph)
+			}
 			if !returned {
 				return
 			}
